@@ -487,9 +487,10 @@ def correspondence(ctx, M, items, mism, stats):
     for i in range(0, len(cases), per):
         chunk = cases[i:i + per]
         text = (HEADER + "Definition cases : list (Result * option json * option json * option json) :=\n [" +
-                ";\n  ".join(chunk) + "].\nEval vm_compute in bad chk 0 cases.\n"
+                ";\n  ".join(chunk) + "].\nDefinition badl := Eval vm_compute in bad chk 0 cases.\n"
+                "Eval vm_compute in badl.\n"
                 "Eval vm_compute in map which (map (fun i => nth i cases (mkRS 0 0 None [] [], None, None, None)) "
-                "(firstn 3 (bad chk 0 cases))).\n")
+                "(firstn 3 badl)).\n")
         name = f"c14_corr_{i // per}"
         jobs.append((name, text))
         offs[name] = i
